@@ -114,3 +114,8 @@ Qed.
 Lemma checkExt_symmetric_lemma :
   enc_fn_checkExt = dec_fn_checkExt /\ enc_fnNoExt_checkExt = dec_fnNoExt_checkExt.
 Proof. split; reflexivity. Qed.
+
+Lemma rt_lemma : forall (X W : Type) (marshal : mech -> X -> W) (unmarshal : mech -> W -> X),
+  (forall m x, unmarshal m (marshal m x) = x) ->
+  forall f x, decX X W unmarshal f (encX X W marshal f x) = x.
+Proof. intros X W ma un Hinv f x. unfold decX, encX. rewrite <- choice_lemma. apply Hinv. Qed.
